@@ -81,6 +81,42 @@ func c30(r *core.Run) {
 	for _, p := range puts {
 		behindAll(r, "C30.G1", fn, p, "store of the cheque", guards)
 	}
+	// E1: a failing read of the last cheque (other than not-found) must stop the function:
+	// otherwise the increase test runs against a made-up "last payout" and a replay passes
+	readOK := core.EdgeSet{}
+	isGet := func(c *ssa.Call) bool { return core.IsCallTo(c, "(pkg/storage.StateStorer).Get") }
+	e1, _ := core.AtomEdges(fn, core.ErrNilAtom(isGet))
+	e2, _ := core.AtomEdges(fn, func(base ssa.Value) (bool, bool) {
+		// err == storage.ErrNotFound  /  errors.Is(err, storage.ErrNotFound)
+		isNF := func(v ssa.Value) bool {
+			p, ok := core.LoadedFrom(core.Forward(v))
+			if !ok {
+				return false
+			}
+			g, ok := p.(*ssa.Global)
+			return ok && g.Name() == "ErrNotFound"
+		}
+		isErr := func(v ssa.Value) bool { c, _ := core.CallOf(v); return c != nil && isGet(c) }
+		if b, ok := base.(*ssa.BinOp); ok && (b.Op == token.EQL || b.Op == token.NEQ) {
+			if (isErr(b.X) && isNF(b.Y)) || (isErr(b.Y) && isNF(b.X)) {
+				return true, b.Op == token.EQL
+			}
+		}
+		if c, _ := core.CallOf(base); c != nil && core.IsCallTo(c, "errors.Is") && isErr(c.Call.Args[0]) && isNF(c.Call.Args[1]) {
+			return true, true
+		}
+		return false, false
+	})
+	for e := range e1 {
+		readOK[e] = true
+	}
+	for e := range e2 {
+		readOK[e] = true
+	}
+	for _, p := range puts {
+		r.Check("C30.E1", core.Key("C30.E1", fn, "store only after the last cheque was read or is known absent"), p.Pos(), len(e1) > 0 && len(e2) > 0 && core.OnlyBehind(fn, p, readOK),
+			"the new cheque is stored only when the last cheque was read successfully or is known to be absent", "a failed read of the last cheque (any error but not-found) is swallowed: the increase test then runs against zero and a replayed or older cheque is accepted and credited again")
+	}
 	// amount operands
 	okAmt := false
 	if subCall != nil {
